@@ -111,6 +111,15 @@ def run_case(spec):
         return out
     r = t.result
     out.label("status%d" % r.status)
+    if b.log.args_mismatch:
+        # "all constraints as the user stated them": a user function must receive the extra
+        # arguments its owner stated (the spies sit behind that binding, so the values they log
+        # cannot reveal a mix-up)
+        kind, idx, got, want = b.log.args_mismatch[0]
+        out.fail("C02.c.args", "user function %s%d was called with extra arguments %r, its owner stated %r"
+                 % (kind, idx, got, want), got=got, want=want)
+    if sum(1 for N in b.spec.get("nl", []) if N.get("form") == "dict" and N.get("args")) >= 2:
+        out.label("dict-args>=2")
     res = check_result(b, t, out)
     if res is not None:
         tv, rec = res
